@@ -717,7 +717,7 @@ func (k *Walker) Do(action string) {
 			return
 		}
 		if k.chance(50) {
-			if p, ok := k.pick(k.wtFiles()); ok && p != ".goitignore" {
+			if p, ok := k.pick(k.wtFiles()); ok && p != ".goitignore" && !k.isLinkTarget(p) {
 				w.Edit("rm", p, nil)
 				w.Write(p+"/inner", k.content())
 			}
@@ -951,4 +951,17 @@ func (k *Walker) Enable(action string, weight int) {
 	}
 	k.total += weight - k.Weights[action]
 	k.Weights[action] = weight
+}
+
+// isLinkTarget: some symbolic link of the working tree points at p. Such a file is not turned into a directory
+// (a link to a directory makes other paths lead "through" it: outside what the models cover).
+func (k *Walker) isLinkTarget(p string) bool {
+	for x, what := range k.W.State().Odd {
+		if t, ok := strings.CutPrefix(what, "symlink -> "); ok && strings.HasPrefix(x, "w/") {
+			if path.Clean(path.Join(path.Dir(x[2:]), t)) == p {
+				return true
+			}
+		}
+	}
+	return false
 }
